@@ -1245,6 +1245,11 @@ class Program:
                     if r in helpers and r not in still:
                         still.add(r)
                         changed = True
+        # a new function that stays visible (it is passed around as a value, e.g. `Lazy::new(init_fn)`) is a caller too:
+        # the helpers it calls are spliced into it
+        for h in sorted(still):
+            if any(c.t.get("resolved") in helpers and c.t.get("resolved") != h for c in self.fns[h].calls(reachable_only=False)):
+                self.fns[h] = inline_private_helpers(self, self.fns[h], only=helpers - {h}, depth=3)
         self.hidden_fns = {}
         for h in sorted(helpers - still):
             self.hidden_fns[h] = self.fns.pop(h)
@@ -2145,7 +2150,8 @@ def desugar_adaptors(prog, fn):
         kind = t["decl"][len(ITER):]
         if kind not in CONSUMERS:
             continue
-        if kind == "collect" and not (t.get("dest_ty") or "").startswith("alloc::vec::Vec<"):
+        into_map = kind == "collect" and (t.get("dest_ty") or "").startswith("std::collections::hash::map::HashMap<") and (t.get("dest_ty") or "").count(",") == 1
+        if kind == "collect" and not ((t.get("dest_ty") or "").startswith("alloc::vec::Vec<") or into_map):
             continue
         if kind == "try_for_each" and not (t.get("dest_ty") or "").startswith("core::result::Result<(), "):
             continue
@@ -2243,7 +2249,18 @@ def desugar_adaptors(prog, fn):
         tail_entry = None
         xs = [x] + [new_local() for _ in stages]
         xn = xs[-1]
-        if kind == "collect":
+        if kind == "collect" and into_map:
+            #   it.collect::<HashMap<K, V>>()   ==   let mut m = HashMap::new(); for (k, v) in it { m.insert(k, v); }
+            rbv, unit, kk, vv = new_local("&mut ?"), new_local("?"), new_local(), new_local()
+            pb = new_block([assign(rbv, {"k": "ref", "mut": True, "place": {"l": dest, "p": []}}, at),
+                            assign(kk, {"k": "use", "a": {"move": {"l": xn, "p": [{"f": "0"}]}}}, at),
+                            assign(vv, {"k": "use", "a": {"move": {"l": xn, "p": [{"f": "1"}]}}}, at)], None)
+            blocks[pb]["term"] = {"k": "call", "decl": "std::collections::hash::map::HashMap::<K, V, S, A>::insert", "decl_local": False, "self_adt": "std::collections::hash::map::HashMap",
+                                  "dispatch": "static", "resolved": "std::collections::hash::map::HashMap::<K, V, S, A>::insert", "resolved_local": False,
+                                  "args": [{"move": {"l": rbv, "p": []}}, {"move": {"l": kk, "p": []}}, {"move": {"l": vv, "p": []}}],
+                                  "arg_tys": ["&mut " + (t.get("dest_ty") or "")], "generic_args": [], "dest": {"l": unit, "p": []}, "target": H, "unwind": None, "at": at}
+            tail_entry = pb
+        elif kind == "collect":
             rbv, unit = new_local("&mut ?"), new_local("()")
             pb = new_block([assign(rbv, {"k": "ref", "mut": True, "place": {"l": dest, "p": []}}, at)], None)
             blocks[pb]["term"] = {"k": "call", "decl": "alloc::vec::Vec::<T, A>::push", "decl_local": False, "self_adt": "alloc::vec::Vec", "dispatch": "static",
@@ -2331,7 +2348,12 @@ def desugar_adaptors(prog, fn):
         elif kind in ("position", "count"):
             pre.append(assign(acc, {"k": "use", "a": {"const": {"kind": "int", "value": 0, "ty": "usize"}}}, at))
         nb["stmts"] = pre
-        if kind == "collect":
+        if kind == "collect" and into_map:
+            vb = new_block([], {"k": "call", "decl": "std::collections::hash::map::HashMap::<K, V>::new", "decl_local": False, "self_adt": "std::collections::hash::map::HashMap",
+                                "dispatch": "static", "resolved": "std::collections::hash::map::HashMap::<K, V>::new", "resolved_local": False, "args": [], "arg_tys": [], "generic_args": [],
+                                "dest": {"l": dest, "p": []}, "dest_ty": t.get("dest_ty"), "target": H, "unwind": None, "at": at})
+            nb["term"] = {"k": "goto", "target": vb, "at": at}
+        elif kind == "collect":
             vb = new_block([], {"k": "call", "decl": "alloc::vec::Vec::<T>::new", "decl_local": False, "self_adt": "alloc::vec::Vec", "dispatch": "static",
                                 "resolved": "alloc::vec::Vec::<T>::new", "resolved_local": False, "args": [], "arg_tys": [], "generic_args": [],
                                 "dest": {"l": dest, "p": []}, "target": H, "unwind": None, "at": at})
